@@ -43,7 +43,7 @@ static std::string vis(const std::string& s) { std::string o; char b[8]; for (un
 struct Config {
     std::string family;
     std::string parse_prop = "C01";      // property a wrong parse outcome is reported under (C05 for precedence families, C08 for recovery families)
-    std::vector<unsigned char> term_byte; // byte of each user terminal (all terms are one-byte char terms)
+    std::vector<std::string> term_text;   // text of each user terminal (one-byte char terms, or fixed-width string terms when there are more than 222 terminals)
     std::vector<int> sample;              // terminals used for the exhaustive input enumeration
     int maxlen = 4;
     std::vector<std::vector<int>> sentences;   // extra inputs (token index sequences)
@@ -178,7 +178,7 @@ template<class P> static int run(P* (*make)(), dyn::Gram& g, const Config& cfg) 
         for (auto& s : cfg.sentences) inputs.push_back(s);
         std::set<std::string> outcomes;
         for (auto& toks : inputs) {
-            std::string in; for (int t : toks) in += char(cfg.term_byte[t]);
+            std::string in; std::vector<size_t> offs; for (int t : toks) { offs.push_back(in.size()); in += cfg.term_text[t]; } offs.push_back(in.size());
             Run want = drive(g, L, toks);
             if (want.undefined || want.horizon) { ctr["parses_without_verdict"]++; continue; }
             g_trace.clear(); std::ostringstream es; bool ok = false; std::string thrown;
@@ -186,7 +186,7 @@ template<class P> static int run(P* (*make)(), dyn::Gram& g, const Config& cfg) 
             catch (const BoundsHit& h) { thrown = std::string("fixed-capacity container overrun in ") + h.what; } catch (const std::exception& e) { thrown = e.what(); }
             ctr["parses"]++; if (want.ok) ctr["parses_accepted"]++; if (!want.err_tok.empty() && want.ok) ctr["parses_recovered"]++;
             std::string prop = cfg.parse_prop; if (!want.err_tok.empty() && prop == "C01") prop = g.T >= 0 && want.popped_states + want.discarded_terms > 0 ? "C08" : "C01";
-            std::ostringstream wantmsg; for (size_t k = 0; k < want.err_tok.size(); ++k) wantmsg << "[1:" << (want.err_tok[k] + 1) << "] PARSE: Syntax error: Unexpected '" << g.tname[want.err_term[k]] << "'\n";
+            std::ostringstream wantmsg; for (size_t k = 0; k < want.err_tok.size(); ++k) wantmsg << "[1:" << (offs[want.err_tok[k]] + 1) << "] PARSE: Syntax error: Unexpected '" << g.tname[want.err_term[k]] << "'\n";
             std::string detail;
             if (!thrown.empty()) detail = "parse threw: " + thrown;
             else if (ok != want.ok) detail = std::string("parse ") + (ok ? "returned a value" : "returned nothing") + ", the grammar says the input is " + (want.ok ? "a sentence" : "not a sentence") + (want.err_tok.empty() ? "" : " (after recovery)") + "; stream '" + vis(es.str()) + "'";
